@@ -81,6 +81,15 @@ type World struct {
 	// AtClose, when set, is called whenever the directory has just been closed.
 	AtClose func(*World)
 
+	// Transcript of the last observation made with ObsFP.
+	Transcript []string
+
+	// backup state (C20)
+	BkDir   string // directory of the last backup
+	BkClean bool   // no delete since the last backup into BkDir
+	bkN     int
+	bkDirs  []string
+
 	sinceOpen int
 	inApply   int
 	inObserve int
@@ -130,6 +139,9 @@ func (w *World) Cleanup() {
 		w.L = nil
 	}
 	_ = os.RemoveAll(w.Dir)
+	for _, d := range w.bkDirs {
+		_ = os.RemoveAll(d)
+	}
 }
 
 func (w *World) failf(props string, format string, a ...any) {
@@ -261,6 +273,16 @@ func (w *World) apply(kind, arg string) bool {
 		return w.publish(arg)
 	case "D":
 		return w.delete(ints(arg))
+	case "DD":
+		// delete twice in a row: the second call must delete nothing
+		if !w.delete(ints(arg)) {
+			return false
+		}
+		del, size, err := w.L.Delete(set(ints(arg)))
+		if len(del) != 0 || size != 0 {
+			w.failf("C12", "deleting %v again deleted %d messages (size %d, err %v)", ints(arg), len(del), size, err)
+		}
+		return true
 	case "DM":
 		return w.deleteMulti(ints(arg), false)
 	case "DMO":
@@ -364,6 +386,12 @@ func (w *World) publish(arg string) bool {
 		msgs[i] = klevdb.Message{Offset: 777 + int64(i), Time: tm, Key: key, Value: val}
 		want[i] = model.Msg{Off: off, T: t, Key: key, Val: val}
 	}
+	single := w.singleVersion()
+	segsBefore, sizeBefore := DirSizes(w.Dir)
+	var wantGrowth int64
+	for i := range msgs {
+		wantGrowth += w.L.Size(klevdb.Message{Key: msgs[i].Key, Value: msgs[i].Value})
+	}
 	if w.BeforeCall != nil {
 		w.BeforeCall("Publish")
 	}
@@ -387,6 +415,15 @@ func (w *World) publish(arg string) bool {
 		}
 	}
 	w.M.Publish(want)
+	if single {
+		segsAfter, sizeAfter := DirSizes(w.Dir)
+		if w.Cfg.Ver == 2 {
+			wantGrowth += int64(segsAfter-segsBefore) * 16
+		}
+		if sizeAfter-sizeBefore != wantGrowth {
+			w.failf("C13", "Publish(%d msgs) grew the segment files by %d bytes, Size() of the messages (plus file headers of %d new segments) is %d", len(msgs), sizeAfter-sizeBefore, segsAfter-segsBefore, wantGrowth)
+		}
+	}
 	return true
 }
 
@@ -475,6 +512,7 @@ func (w *World) checkDeleted(what string, req map[int64]struct{}, deleted []mode
 }
 
 func (w *World) delete(offs []int64) bool {
+	w.BkClean = false
 	req := set(offs)
 	bases, vers := SegVersions(w.Dir)
 	if w.BeforeCall != nil {
@@ -522,6 +560,7 @@ func (w *World) delete(offs []int64) bool {
 func NoBackoff(context.Context) error { return nil }
 
 func (w *World) deleteMulti(offs []int64, offsetsOnly bool) bool {
+	w.BkClean = false
 	req := set(offs)
 	allLive := len(offs) > 0
 	for _, o := range offs {
